@@ -26,7 +26,7 @@ if name not in self._name_map:
     while True:
         new_name = self._name_for_id(self._next_name_id)
         self._next_name_id += 1
-        if new_name not in MinifyNameFactory.PRESERVED_NAMES:
+        if new_name not in MinifyNameFactory.PRESERVED_NAMES and (self._names_to_keep is None or new_name not in self._names_to_keep):
             break
     self._name_map[name] = new_name
 return self._name_map[name]"%bs.
@@ -56,6 +56,7 @@ if getattr(args, 'lua_format', False):
     lua_writer_args = {'indentwidth': args.indentwidth, 'keep_all_names': args.keep_all_names, 'keep_names_from_file': args.keep_names_from_file}
 elif getattr(args, 'lua_minify', False):
     lua_writer_cls = lua.LuaMinifyTokenWriter
+    lua_writer_args = {'keep_all_names': args.keep_all_names, 'keep_names_from_file': args.keep_names_from_file}
 file.to_file(result, filename=args.filename, lua_writer_cls=lua_writer_cls, lua_writer_args=lua_writer_args)"%bs.
 Proof. reflexivity. Qed.
 
@@ -216,16 +217,26 @@ Qed.
 
 (* ---------- the `while True` loop of get_short_name ---------- *)
 
-Lemma fresh_name_ok fuel : forall id nn id', 0 <= id ->
-  fresh_name fuel id = Ok (nn, id') ->
-  id < id' /\ name_for_id (id' - 1) = Ok nn /\ in_names nn preserved_names = false.
+Lemma in_keep_file_In cfg n : in_keep_file cfg n = true <-> In n (keep_list cfg).
+Proof.
+  unfold in_keep_file, keep_list. destruct (names_to_keep cfg) as [ks|].
+  - apply in_names_In.
+  - split; [discriminate | intros []].
+Qed.
+
+Lemma fresh_name_ok cfg fuel : forall id nn id', 0 <= id ->
+  fresh_name cfg fuel id = Ok (nn, id') ->
+  id < id' /\ name_for_id (id' - 1) = Ok nn /\ in_names nn preserved_names = false
+  /\ in_keep_file cfg nn = false.
 Proof.
   induction fuel as [|f IH]; intros id nn id' Hid H; [discriminate|].
   cbn [fresh_name] in H. destruct (name_for_id id) as [cand|e] eqn:En; cbn [bind] in H; [|discriminate].
-  destruct (in_names cand preserved_names) eqn:Ep; cbn [negb] in H.
+  destruct (in_names cand preserved_names) eqn:Ep; cbn [negb andb] in H.
   - apply IH in H; [|lia]. destruct H as (Hlt & Hn & Hp). split; [lia|]. split; assumption.
-  - injection H as <- <-. split; [lia|]. split; [|exact Ep].
-    replace (id + 1 - 1) with id by lia. exact En.
+  - destruct (in_keep_file cfg cand) eqn:Ek; cbn [negb] in H.
+    + apply IH in H; [|lia]. destruct H as (Hlt & Hn & Hp). split; [lia|]. split; assumption.
+    + injection H as <- <-. split; [lia|]. split; [|split; [exact Ep | exact Ek]].
+      replace (id + 1 - 1) with id by lia. exact En.
 Qed.
 
 (* the name of an id, for ids >= 0 where name_for_id is total *)
@@ -238,19 +249,22 @@ Proof.
   rewrite Ha, Hb in *. congruence.
 Qed.
 
-(* either the loop stops, or all `fuel` candidates were preserved names *)
-Lemma fresh_name_cases fuel : forall id, 0 <= id ->
-  (exists nn id', fresh_name fuel id = Ok (nn, id')) \/
-  (forall t, (t < fuel)%nat -> In (gen_name (id + Z.of_nat t)) preserved_names).
+(* either the loop stops, or all `fuel` candidates were preserved or keep-file names *)
+Lemma fresh_name_cases cfg fuel : forall id, 0 <= id ->
+  (exists nn id', fresh_name cfg fuel id = Ok (nn, id')) \/
+  (forall t, (t < fuel)%nat -> In (gen_name (id + Z.of_nat t)) (preserved_names ++ keep_list cfg)).
 Proof.
   induction fuel as [|f IH]; intros id Hid; [right; intros t Ht; lia|].
   cbn [fresh_name]. destruct (name_for_id_total id Hid) as (cand & Hc). rewrite Hc. cbn [bind].
-  destruct (in_names cand preserved_names) eqn:Ep; cbn [negb].
+  destruct (negb (in_names cand preserved_names) && negb (in_keep_file cfg cand)) eqn:Ep.
+  - left. eexists. eexists. reflexivity.
   - destruct (IH (id + 1)) as [Hl|Hr]; [lia | left; exact Hl | right].
     intros [|t] Ht.
-    + rewrite Z.add_0_r. unfold gen_name. rewrite Hc. apply in_names_In, Ep.
+    + rewrite Z.add_0_r. unfold gen_name. rewrite Hc. apply in_or_app.
+      apply andb_false_iff in Ep. destruct Ep as [Ep|Ep]; apply negb_false_iff in Ep.
+      * left. apply in_names_In, Ep.
+      * right. apply in_keep_file_In, Ep.
     + replace (id + Z.of_nat (S t)) with (id + 1 + Z.of_nat t) by lia. apply Hr. lia.
-  - left. eexists. eexists. reflexivity.
 Qed.
 
 Lemma NoDup_map_inj_on {A C} (f : A -> C) (l : list A) :
@@ -264,30 +278,32 @@ Proof.
   - apply IH. intros a b Ha Hb. apply Hinj; right; assumption.
 Qed.
 
-(* pigeonhole: more candidates than preserved names -> one of them is not preserved *)
-Lemma fresh_name_total id : 0 <= id -> exists nn id', fresh_name fresh_fuel id = Ok (nn, id').
+(* pigeonhole: more candidates than preserved + keep-file names -> one of them is neither *)
+Lemma fresh_name_total cfg id : 0 <= id ->
+  exists nn id', fresh_name cfg (fresh_fuel cfg) id = Ok (nn, id').
 Proof.
-  intros Hid. destruct (fresh_name_cases fresh_fuel id Hid) as [H|H]; [exact H|exfalso].
+  intros Hid. destruct (fresh_name_cases cfg (fresh_fuel cfg) id Hid) as [H|H]; [exact H|exfalso].
   set (f := fun t : nat => gen_name (id + Z.of_nat t)) in *.
-  assert (Hnd : NoDup (map f (seq 0 fresh_fuel))).
+  assert (Hnd : NoDup (map f (seq 0 (fresh_fuel cfg)))).
   { apply NoDup_map_inj_on; [|apply seq_NoDup].
     intros x y _ _ E. unfold f in E. apply gen_name_injective in E; lia. }
-  assert (Hincl : incl (map f (seq 0 fresh_fuel)) preserved_names).
+  assert (Hincl : incl (map f (seq 0 (fresh_fuel cfg))) (preserved_names ++ keep_list cfg)).
   { intros n Hn. apply in_map_iff in Hn. destruct Hn as (t & <- & Ht). apply in_seq in Ht.
     apply H. lia. }
   pose proof (NoDup_incl_length Hnd Hincl) as Hlen.
-  rewrite map_length, seq_length in Hlen. unfold fresh_fuel in Hlen. lia.
+  rewrite map_length, seq_length, app_length in Hlen. unfold fresh_fuel in Hlen. lia.
 Qed.
 
 (* ---------- get_short_name: invariant of the factory state ---------- *)
 
-Definition generated_upto (N : Z) (v : list Z) : Prop :=
-  exists id, 0 <= id < N /\ name_for_id id = Ok v /\ in_names v preserved_names = false.
+Definition generated_upto (cfg : config) (N : Z) (v : list Z) : Prop :=
+  exists id, 0 <= id < N /\ name_for_id id = Ok v /\ in_names v preserved_names = false
+             /\ in_keep_file cfg v = false.
 
 Record inv (cfg : config) (st : state) : Prop := {
   inv_next : 0 <= next_id st;
   inv_vals : forall k v, lookup k (name_map st) = Some v ->
-             kept cfg k = false /\ generated_upto (next_id st) v;
+             kept cfg k = false /\ generated_upto cfg (next_id st) v;
   inv_inj : forall k1 k2 v, lookup k1 (name_map st) = Some v ->
             lookup k2 (name_map st) = Some v -> k1 = k2 }.
 
@@ -327,7 +343,7 @@ Proof.
   - intros k1 k2 v H. discriminate.
 Qed.
 
-Lemma generated_upto_mono N N' v : N <= N' -> generated_upto N v -> generated_upto N' v.
+Lemma generated_upto_mono cfg N N' v : N <= N' -> generated_upto cfg N v -> generated_upto cfg N' v.
 Proof. intros Hle (id & Hid & H). exists id. split; [lia | exact H]. Qed.
 
 Lemma unchanged_state_spec cfg st n o :
@@ -358,12 +374,12 @@ Proof.
   { injection H as <- <-.
     apply unchanged_state_spec; [exact Hinv|]. unfold answer. rewrite Hnk. exact El. }
   unfold answer. rewrite Hnk.
-  destruct (fresh_name fresh_fuel (next_id st)) as [[nn id']|e] eqn:Ef; cbn [bind] in H; [|discriminate].
+  destruct (fresh_name cfg (fresh_fuel cfg) (next_id st)) as [[nn id']|e] eqn:Ef; cbn [bind] in H; [|discriminate].
   injection H as <- <-. cbn [name_map next_id].
   destruct Hinv as [Hnext Hvals Hinj].
-  apply fresh_name_ok in Ef; [|exact Hnext]. destruct Ef as (Hlt & Hnn & Hnp).
-  assert (Hgen : generated_upto id' nn).
-  { exists (id' - 1). split; [lia|]. split; assumption. }
+  apply fresh_name_ok in Ef; [|exact Hnext]. destruct Ef as (Hlt & Hnn & Hnp & Hnkf).
+  assert (Hgen : generated_upto cfg id' nn).
+  { exists (id' - 1). split; [lia|]. split; [assumption|]. split; assumption. }
   assert (Hold : forall k v, lookup k (name_map st) = Some v -> v <> nn).
   { intros k v Hk ->. apply Hvals in Hk. destruct Hk as (_ & id & Hid & Hn & _).
     assert (id = id' - 1) by (apply name_for_id_injective; [lia | lia | congruence]). lia. }
@@ -394,7 +410,7 @@ Proof.
   destruct (in_names n preserved_names); [eexists; eexists; reflexivity|].
   destruct (in_keep_file cfg n); [eexists; eexists; reflexivity|].
   destruct (lookup n (name_map st)); [eexists; eexists; reflexivity|].
-  destruct (fresh_name_total (next_id st) Hn) as (nn & id' & ->). cbn [bind].
+  destruct (fresh_name_total cfg (next_id st) Hn) as (nn & id' & ->). cbn [bind].
   eexists. eexists. reflexivity.
 Qed.
 
@@ -503,102 +519,98 @@ Proof.
 Qed.
 
 (* a renamed identifier gets a name of the enumeration, below the final counter, that is
-   neither a keyword nor a builtin *)
+   neither a keyword nor a builtin nor a keep-file name *)
 Lemma generated_not_preserved cfg names st' outs n o :
   run_factory_st cfg names = Ok (st', outs) -> observed names outs n o -> ~ is_kept cfg n ->
   ~ In o lua_keywords /\ ~ In o pico8_builtins /\
+  (forall ks, names_to_keep cfg = Some ks -> ~ In o ks) /\
   exists id, 0 <= id < next_id st' /\ name_for_id id = Ok o.
 Proof.
   intros H Hobs Hk. apply run_factory_st_spec in H. destruct H as (Hinv & Hans & _).
   apply Hans in Hobs. unfold answer in Hobs. apply kept_false_iff in Hk. rewrite Hk in Hobs.
-  apply (inv_vals _ _ Hinv) in Hobs. destruct Hobs as (_ & id & Hid & Hn & Hp).
+  apply (inv_vals _ _ Hinv) in Hobs. destruct Hobs as (_ & id & Hid & Hn & Hp & Hkf).
   apply in_names_false in Hp. rewrite preserved_spec in Hp.
-  split; [tauto|]. split; [tauto|]. exists id. split; assumption.
+  split; [tauto|]. split; [tauto|]. split.
+  - intros ks Eks Hin. unfold in_keep_file in Hkf. rewrite Eks in Hkf.
+    apply in_names_false in Hkf. exact (Hkf Hin).
+  - exists id. split; assumption.
 Qed.
 
-(* the hypothesis that excludes the known defect S2: no keep-file name that is itself
-   requested equals a name of the enumeration below the final counter *)
-Definition keepfile_disjoint (cfg : config) (names : list (list Z)) (N : Z) : Prop :=
-  forall ks k id, names_to_keep cfg = Some ks -> In k ks -> In k names ->
-                  0 <= id < N -> name_for_id id <> Ok k.
+Lemma generated_not_kept cfg names outs n o :
+  run_factory cfg names = Ok outs -> observed names outs n o -> ~ is_kept cfg n -> ~ is_kept cfg o.
+Proof.
+  intros H Hobs Hk. apply run_factory_st_of in H. destruct H as (st' & H).
+  destruct (generated_not_preserved _ _ _ _ _ _ H Hobs Hk) as (H1 & H2 & H3 & _).
+  intros [Hka|[Hkw|[Hb|(ks & Eks & Hin)]]].
+  - apply Hk. left. exact Hka.
+  - exact (H1 Hkw).
+  - exact (H2 Hb).
+  - exact (H3 ks Eks Hin).
+Qed.
 
 Lemma observed_In names outs n o : observed names outs n o -> In n names.
 Proof. unfold observed. apply in_combine_l. Qed.
 
-Lemma injective_partial cfg names st' outs :
-  run_factory_st cfg names = Ok (st', outs) ->
-  keepfile_disjoint cfg names (next_id st') ->
+(* injective: two different identifiers never get the same output, whether kept or generated,
+   for every configuration and every keep file *)
+Lemma injective cfg names outs :
+  run_factory cfg names = Ok outs ->
   forall n1 n2 o, observed names outs n1 o -> observed names outs n2 o -> n1 = n2.
 Proof.
-  intros H Hdis n1 n2 o H1 H2. apply run_factory_st_spec in H. destruct H as (Hinv & Hans & _).
-  pose proof (observed_In _ _ _ _ H1) as Hin1. pose proof (observed_In _ _ _ _ H2) as Hin2.
+  intros H n1 n2 o H1 H2. apply run_factory_st_of in H. destruct H as (st' & H).
+  apply run_factory_st_spec in H. destruct H as (Hinv & Hans & _).
   apply Hans in H1, H2. unfold answer in H1, H2.
-  assert (Hmixed : forall a b, In a names -> kept cfg a = true -> kept cfg b = false ->
+  assert (Hmixed : forall a b, kept cfg a = true -> kept cfg b = false ->
                                lookup b (name_map st') = Some a -> False).
-  { intros a b Hina Ha Hb Hl. apply (inv_vals _ _ Hinv) in Hl.
-    destruct Hl as (_ & id & Hid & Hn & Hp).
+  { intros a b Ha Hb Hl. apply (inv_vals _ _ Hinv) in Hl.
+    destruct Hl as (_ & id & Hid & Hn & Hp & Hkf).
     unfold kept in Ha, Hb. apply orb_false_iff in Hb. destruct Hb as [Hb _].
     apply orb_false_iff in Hb. destruct Hb as [Hka _].
-    rewrite Hka, Hp in Ha. cbn [orb] in Ha. unfold in_keep_file in Ha.
-    destruct (names_to_keep cfg) as [ks|] eqn:Eks; [|discriminate].
-    apply in_names_In in Ha. exact (Hdis ks a id Eks Ha Hina Hid Hn). }
+    rewrite Hka, Hp, Hkf in Ha. discriminate. }
   destruct (kept cfg n1) eqn:E1; destruct (kept cfg n2) eqn:E2.
   - congruence.
-  - injection H1 as <-. exfalso. eapply Hmixed; [exact Hin1 | exact E1 | exact E2 | exact H2].
-  - injection H2 as <-. exfalso. eapply Hmixed; [exact Hin2 | exact E2 | exact E1 | exact H1].
+  - injection H1 as <-. exfalso. eapply Hmixed; [exact E1 | exact E2 | exact H2].
+  - injection H2 as <-. exfalso. eapply Hmixed; [exact E2 | exact E1 | exact H1].
   - eapply (inv_inj _ _ Hinv); eassumption.
 Qed.
 
-Lemma injective_no_keepfile cfg names outs :
-  names_to_keep cfg = None -> run_factory cfg names = Ok outs ->
-  forall n1 n2 o, observed names outs n1 o -> observed names outs n2 o -> n1 = n2.
-Proof.
-  intros Hnone H. apply run_factory_st_of in H. destruct H as (st' & H).
-  eapply injective_partial; [exact H|]. intros ks k id E. congruence.
-Qed.
+(* the pre-fix witness of S2 (keep file "a", requests foo, a): foo now skips the candidate a *)
+Lemma keepfile_collision_fixed :
+  run_factory (mk_config false (Some (unBS "a"%bs))) [unBS "foo"%bs; unBS "a"%bs]
+  = Ok [unBS "b"%bs; unBS "a"%bs].
+Proof. vm_compute. reflexivity. Qed.
 
-Lemma injective_keep_all cfg names outs :
-  keep_all cfg = true -> run_factory cfg names = Ok outs ->
-  forall n1 n2 o, observed names outs n1 o -> observed names outs n2 o -> n1 = n2.
-Proof.
-  intros Hka H n1 n2 o H1 H2.
-  assert (Hk : forall n, is_kept cfg n) by (intros n; left; exact Hka).
-  pose proof (kept_unchanged _ _ _ _ _ H H1 (Hk n1)).
-  pose proof (kept_unchanged _ _ _ _ _ H H2 (Hk n2)). congruence.
-Qed.
-
-(* under the same kind of hypothesis (for all keep-file names, requested or not) no generated
-   name is a keep-file name *)
-Lemma generated_not_in_keepfile_partial cfg names st' outs ks :
-  run_factory_st cfg names = Ok (st', outs) -> names_to_keep cfg = Some ks ->
-  (forall k id, In k ks -> 0 <= id < next_id st' -> name_for_id id <> Ok k) ->
-  forall n o, observed names outs n o -> ~ is_kept cfg n -> ~ In o ks.
-Proof.
-  intros H Eks Hdis n o Hobs Hk Hin.
-  destruct (generated_not_preserved _ _ _ _ _ _ H Hobs Hk) as (_ & _ & id & Hid & Hn).
-  exact (Hdis o id Hin Hid Hn).
-Qed.
-
-(* the unrestricted injectivity statement is false for the faithful model: S2 *)
-Lemma keepfile_collision_refuted :
-  exists cfg names outs n1 n2 o,
-    run_factory cfg names = Ok outs /\ observed names outs n1 o /\ observed names outs n2 o /\ n1 <> n2.
-Proof.
-  exists (mk_config false (Some (unBS "a"%bs))), [unBS "foo"%bs; unBS "a"%bs],
-         [unBS "a"%bs; unBS "a"%bs], (unBS "foo"%bs), (unBS "a"%bs), (unBS "a"%bs).
-  split; [vm_compute; reflexivity|]. split; [left; reflexivity|]. split; [right; left; reflexivity|].
-  discriminate.
-Qed.
-
-(* S3: build --lua-minify --keep-all-names renames anyway (the options never reach the factory) *)
-Lemma build_keep_options_refuted :
-  exists names outs n o,
-    run_factory (build_minify_config true None) names = Ok outs /\ observed names outs n o /\ o <> n.
-Proof.
-  exists [unBS "foo"%bs], [unBS "a"%bs], (unBS "foo"%bs), (unBS "a"%bs).
-  split; [vm_compute; reflexivity|]. split; [left; reflexivity | discriminate].
-Qed.
-
-(* tool.luamin hands both options to the factory *)
+(* tool.luamin and build --lua-minify hand both options to the factory *)
 Lemma luamin_config_spec ka kf : luamin_config ka kf = mk_config ka kf.
 Proof. reflexivity. Qed.
+Lemma build_minify_config_spec ka kf : build_minify_config ka kf = luamin_config ka kf.
+Proof. reflexivity. Qed.
+Lemma cli_configs ka kf :
+  luamin_config ka kf = mk_config ka kf /\ build_minify_config ka kf = mk_config ka kf.
+Proof. split; reflexivity. Qed.
+
+(* ---------- DESIGN 8 C02_renaming, positional form ---------- *)
+Lemma nth_observed names outs i d : (i < length names)%nat -> length outs = length names ->
+  observed names outs (nth i names d) (nth i outs d).
+Proof.
+  intros Hi Hl. unfold observed. rewrite <- (combine_nth names outs i d d) by (symmetry; exact Hl).
+  apply nth_In. rewrite combine_length, Hl, Nat.min_id. exact Hi.
+Qed.
+
+Lemma renaming cfg names outs : run_factory cfg names = Ok outs ->
+  length outs = length names /\
+  (forall i j, (i < length names)%nat -> (j < length names)%nat ->
+     (nth i names [] = nth j names [] <-> nth i outs [] = nth j outs [])) /\
+  (forall i, (i < length names)%nat -> is_kept cfg (nth i names []) -> nth i outs [] = nth i names []) /\
+  (forall i, (i < length names)%nat -> ~ is_kept cfg (nth i names []) -> ~ is_kept cfg (nth i outs [])).
+Proof.
+  intros H. pose proof H as Hst. apply run_factory_st_of in Hst. destruct Hst as (st' & Hst).
+  apply run_factory_st_spec in Hst. destruct Hst as (_ & _ & Hlen).
+  split; [exact Hlen|]. split; [|split].
+  - intros i j Hi Hj. pose proof (nth_observed names outs i [] Hi Hlen) as Oi.
+    pose proof (nth_observed names outs j [] Hj Hlen) as Oj. split; intros E.
+    + rewrite E in Oi. eapply consistent; eassumption.
+    + rewrite E in Oi. eapply injective; eassumption.
+  - intros i Hi Hk. eapply kept_unchanged; [exact H | apply nth_observed; assumption | exact Hk].
+  - intros i Hi Hk. eapply generated_not_kept; [exact H | apply nth_observed; assumption | exact Hk].
+Qed.
